@@ -18,6 +18,69 @@ type callSig struct {
 	Func    string   `json:"func"`
 	File    string   `json:"file"`
 	Callees []string `json:"callees"`
+	// Counts: number of call sites per callee (closures included)
+	Counts map[string]int `json:"counts,omitempty"`
+	// Order: pairs "A => B" of callees the function body itself (closures excluded) calls exactly once, where A executes before B on every path that reaches B
+	Order []string `json:"order,omitempty"`
+}
+
+// uniqueCalls: callee name -> the single call instruction of fn's own body with that name.
+func uniqueCalls(c *Ctx, fn *ssa.Function) map[string]ssa.Instruction {
+	count := map[string]int{}
+	at := map[string]ssa.Instruction{}
+	for _, b := range fn.Blocks {
+		for _, in := range b.Instrs {
+			ci, ok := in.(ssa.CallInstruction)
+			if !ok {
+				continue
+			}
+			if _, isDefer := in.(*ssa.Defer); isDefer {
+				continue
+			}
+			if n := calleeName(c, ci.Common()); n != "" {
+				count[n]++
+				at[n] = in
+			}
+		}
+	}
+	for n, k := range count {
+		if k != 1 {
+			delete(at, n)
+		}
+	}
+	return at
+}
+
+// executesBefore: x can be followed by y, and y can never be followed by x (strict order along control flow).
+func executesBefore(x, y ssa.Instruction) bool {
+	return instrReaches(x, y) && !instrReaches(y, x)
+}
+
+// instrReaches: some control-flow path leads from x to y.
+func instrReaches(x, y ssa.Instruction) bool {
+	bx, by := x.Block(), y.Block()
+	if bx == by {
+		xi, yi := -1, -1
+		for i, in := range bx.Instrs {
+			if in == x {
+				xi = i
+			}
+			if in == y {
+				yi = i
+			}
+		}
+		if xi < yi {
+			return true
+		}
+		// later in the same block: only around a cycle
+		for _, s := range bx.Succs {
+			if s == bx || reaches(s, bx) {
+				return true
+			}
+		}
+		return false
+	}
+	return reaches(bx, by)
 }
 
 var trivialCalleePkgs = map[string]bool{"fmt": true, "errors": true, "log/slog": true, "strings": true, "strconv": true, "sort": true, "slices": true, "maps": true, "bytes": true, "math": true, "math/bits": true, "unicode": true, "reflect": true, "encoding/json": true, "context": true, "net/netip": true, "net": true, "time": true, "runtime": true, "os": true, "regexp": true, "encoding/binary": true, "google.golang.org/protobuf/proto": true}
@@ -70,6 +133,10 @@ func calleeName(c *Ctx, call *ssa.CallCommon) string {
 
 // directCallees: callees of fn and of the closures nested in it.
 func directCallees(c *Ctx, fn *ssa.Function, out map[string]bool, mods map[*ssa.Function]bool) {
+	directCalleeCounts(c, fn, out, nil, mods)
+}
+
+func directCalleeCounts(c *Ctx, fn *ssa.Function, out map[string]bool, counts map[string]int, mods map[*ssa.Function]bool) {
 	var walk func(f *ssa.Function)
 	walk = func(f *ssa.Function) {
 		for _, b := range f.Blocks {
@@ -79,7 +146,12 @@ func directCallees(c *Ctx, fn *ssa.Function, out map[string]bool, mods map[*ssa.
 					continue
 				}
 				if n := calleeName(c, ci.Common()); n != "" {
-					out[n] = true
+					if out != nil {
+						out[n] = true
+					}
+					if counts != nil {
+						counts[n]++
+					}
 				}
 				if cal := ci.Common().StaticCallee(); cal != nil && cal.Parent() == nil && cal.Blocks != nil && c.P.InModule(cal) && mods != nil {
 					mods[cal] = true
@@ -108,11 +180,31 @@ func (c *Ctx) callSigs(pkgs []string) []callSig {
 				continue
 			}
 			set := map[string]bool{}
-			directCallees(c, fn, set, nil)
+			counts := map[string]int{}
+			directCalleeCounts(c, fn, set, counts, nil)
 			if len(set) == 0 {
 				continue
 			}
-			out = append(out, callSig{Func: ir.FuncKey(fn), File: file, Callees: sortedKeys(set)})
+			for k, n := range counts {
+				if n < 2 {
+					delete(counts, k) // only multiplicities worth recording
+				}
+			}
+			uc := uniqueCalls(c, fn)
+			var names []string
+			for n := range uc {
+				names = append(names, n)
+			}
+			sort.Strings(names)
+			var order []string
+			for _, a := range names {
+				for _, b := range names {
+					if a != b && executesBefore(uc[a], uc[b]) {
+						order = append(order, a+" => "+b)
+					}
+				}
+			}
+			out = append(out, callSig{Func: ir.FuncKey(fn), File: file, Callees: sortedKeys(set), Counts: counts, Order: order})
 		}
 	}
 	sort.Slice(out, func(i, j int) bool { return out[i].Func < out[j].Func })
@@ -124,7 +216,7 @@ var callPkgs = []string{"pkg/server", "internal/pkg/table", "pkg/apiutil", "pkg/
 // ruleCallRatchet: no call that the reviewed tree makes has silently disappeared from its function.
 func (c *Ctx) ruleCallRatchet(rule string, pkgs []string, fileFilter func(file string) bool, baselineFile string, min int) {
 	r := c.R
-	r.Rule(rule, "dropped-call ratchet: the committed baseline records, for every function of the anchored code, the non-trivial functions and methods it calls directly (closures included; logging, formatting and pure library helpers left out). A function that still exists but neither calls a recorded callee any more, nor reaches it through module functions it calls (depth ≤ 3, so extracting a helper is not an alarm), has dropped a step — a bookkeeping update, a reset, a notification, a lock — that the reviewed behaviour included. Callees that no longer exist anywhere are not decided", min)
+	r.Rule(rule, "dropped-call ratchet: the committed baseline records, for every function of the anchored code, the non-trivial functions and methods it calls directly (closures included; logging, formatting and pure library helpers left out). A function that still exists but neither calls a recorded callee any more, nor reaches it through a module function it has newly started to call (depth ≤ 3, so extracting a helper is not an alarm), has dropped a step — a bookkeeping update, a reset, a notification, a lock — that the reviewed behaviour included. Callees that no longer exist anywhere are not decided", min)
 	var base []callSig
 	b, err := os.ReadFile(filepath.Join(homeDir(), baselineFile))
 	if err != nil || json.Unmarshal(b, &base) != nil {
@@ -158,14 +250,39 @@ func (c *Ctx) ruleCallRatchet(rule string, pkgs []string, fileFilter func(file s
 			r.Add(oblT(rule, bs.Func, cons, bs.File, "ok", "the function no longer exists: not decided", nil, true))
 			continue
 		}
-		// reachable callee names within depth 3
+		// what the function calls now; a recorded callee may also have moved into a helper that the function
+		// did not call on the reviewed tree (extraction), so follow only the newly called module functions
 		reach := map[string]bool{}
+		direct := map[*ssa.Function]bool{}
+		directCallees(c, fn, reach, direct)
+		recorded := map[string]bool{}
+		for _, k := range bs.Callees {
+			recorded[k] = true
+		}
+		var frontier []*ssa.Function
 		seen := map[*ssa.Function]bool{fn: true}
-		frontier := []*ssa.Function{fn}
-		for depth := 0; depth <= 3 && len(frontier) > 0; depth++ {
+		for f := range direct {
+			k := ir.FuncKey(f)
+			if i := strings.Index(k, "["); i > 0 {
+				k = k[:i]
+			}
+			isNew := true
+			for rk := range recorded {
+				if rk == k || strings.HasPrefix(rk, k+"@") {
+					isNew = false
+				}
+			}
+			if isNew && !seen[f] {
+				seen[f] = true
+				frontier = append(frontier, f)
+			}
+		}
+		reachNew := map[string]bool{}
+		for depth := 0; depth < 3 && len(frontier) > 0; depth++ {
 			next := map[*ssa.Function]bool{}
 			for _, f := range frontier {
 				directCallees(c, f, reach, next)
+				directCallees(c, f, reachNew, nil)
 			}
 			frontier = nil
 			for f := range next {
@@ -175,9 +292,18 @@ func (c *Ctx) ruleCallRatchet(rule string, pkgs []string, fileFilter func(file s
 				}
 			}
 		}
+		nowCounts := map[string]int{}
+		directCalleeCounts(c, fn, nil, nowCounts, nil)
 		var missing []string
 		for _, k := range bs.Callees {
 			if reach[k] {
+				n0 := bs.Counts[k]
+				if n0 == 0 {
+					n0 = 1
+				}
+				if nowCounts[k] < n0 && !reachNew[k] {
+					missing = append(missing, fmt.Sprintf("%s (%d of %d call sites left)", k, nowCounts[k], n0))
+				}
 				continue
 			}
 			kk := k
@@ -193,6 +319,57 @@ func (c *Ctx) ruleCallRatchet(rule string, pkgs []string, fileFilter func(file s
 			r.Ok(rule, bs.Func, cons, bs.File, "all still called (directly or through helpers)")
 		} else {
 			r.Bad(rule, bs.Func, cons, bs.File, "the function no longer calls "+strings.Join(missing, ", ")+" (neither directly nor through the module functions it calls): a step of the reviewed behaviour was dropped")
+		}
+	}
+}
+
+// ruleOrderRatchet: two steps of a function have not changed places.
+func (c *Ctx) ruleOrderRatchet(rule string, pkgs []string, fileFilter func(file string) bool, baselineFile string, min int) {
+	r := c.R
+	r.Rule(rule, "swapped-order ratchet: the committed baseline records, per function, the pairs (A, B) of non-trivial callees its body calls exactly once such that A executed before B on every path reaching B. If now B executes before A on every path reaching A (same block earlier, or B's block dominates A's), two steps have changed places — a check after the use, a bookkeeping update before the test it depends on, a strip before the policy that may set the attribute", min)
+	var base []callSig
+	b, err := os.ReadFile(filepath.Join(homeDir(), baselineFile))
+	if err != nil || json.Unmarshal(b, &base) != nil {
+		r.Undec(rule, "-", "baseline:"+baselineFile, "-", "baseline file missing or unreadable")
+		return
+	}
+	for _, bs := range base {
+		inPkgs := false
+		for _, pk := range pkgs {
+			if strings.Contains(bs.Func, pk+".") {
+				inPkgs = true
+			}
+		}
+		if !inPkgs || len(bs.Order) < 1 || (fileFilter != nil && !fileFilter(bs.File)) {
+			continue
+		}
+		fn := c.P.Func(bs.Func)
+		cons := fmt.Sprintf("%d ordered pairs of single calls", len(bs.Order))
+		if fn == nil || fn.Blocks == nil {
+			r.Add(oblT(rule, bs.Func, cons, bs.File, "ok", "the function no longer exists: not decided", nil, true))
+			continue
+		}
+		uc := uniqueCalls(c, fn)
+		swapped := ""
+		for _, pr := range bs.Order {
+			i := strings.Index(pr, " => ")
+			if i < 0 {
+				continue
+			}
+			a, okA := uc[pr[:i]]
+			bb, okB := uc[pr[i+4:]]
+			if !okA || !okB {
+				continue
+			}
+			if executesBefore(bb, a) {
+				swapped = pr[i+4:] + " now runs before " + pr[:i] + " (" + c.P.InstrPos(bb) + ")"
+				break
+			}
+		}
+		if swapped == "" {
+			r.Ok(rule, bs.Func, cons, bs.File, "relative order unchanged")
+		} else {
+			r.Bad(rule, bs.Func, cons, bs.File, "two steps changed places: "+swapped)
 		}
 	}
 }
